@@ -158,7 +158,7 @@ theorem every_call_terminates (c : Ctx) (root : List Slot) (h : CInv c root []) 
     (fault : TraceFault) : (c.doCollection root ru stop fault).2 ≠ .outOfFuel :=
   doCollection_terminates h ru stop fault
 
-theorem getElem_mem_tail {α} (l : List α) (n : Nat) (h : n < l.length) (h0 : n ≠ 0) : l[n] ∈ l.tail := by
+private theorem getElem_mem_tail {α} (l : List α) (n : Nat) (h : n < l.length) (h0 : n ≠ 0) : l[n] ∈ l.tail := by
   cases l with
   | nil => simp at h
   | cons a t =>
